@@ -77,7 +77,7 @@ def h(a: int, v) -> tuple[int, str]: ...
 PARENTS = ["none", "module", "class", "function", "init", "property", "function-iter", "function-tuple"]
 
 # plan: list of ((tokens over the full alphabet, tokens after a header), option deviations); later entries only add what earlier ones lack
-_PLAN = {"quick": [((2, 2), 1)], "thorough": [((3, 3), 1), ((2, 2), 2)]}
+_PLAN = {"quick": [((2, 2), 1)], "thorough": [((3, 3), 0), ((3, 2), 1), ((2, 2), 2)]}
 
 
 def bounds(tier):
@@ -236,7 +236,7 @@ def run_shard(shard, tier):
     for pi, (lens, vectors) in enumerate(work):
       if pi > 0:
           seen_texts = set()
-          done_vecs = [jd for jd in map(lambda v: tuple(sorted(v.items())), work[0][1])]
+          done_vecs = [tuple(sorted(v.items())) for earlier in work[:pi] for v in earlier[1]]  # earlier passes cover a superset of these texts
           vectors = [v for v in vectors if tuple(sorted(v.items())) not in done_vecs]
           if not vectors:
               continue
